@@ -189,6 +189,8 @@ func processPkg(fset *token.FileSet, imp types.Importer, p listPkg, rel string, 
 
 	nFiles, nRange := 0, 0
 	for i, f := range files {
+		nSelect := 0
+		_ = nSelect
 		name := p.GoFiles[i]
 		src := srcs[i]
 		var edits []edit
@@ -274,6 +276,66 @@ func processPkg(fset *token.FileSet, imp types.Importer, p listPkg, rel string, 
 				return true
 			})
 		}
+		// 4. select determinisation: a select without default whose cases are all receives is
+		// preceded by non-blocking attempts in source order, so that when several cases are ready
+		// at entry (exact coincidences are the rule under virtual time) the choice is the first in
+		// source order instead of Go's uniformly random pick - a legal refinement of select.
+		ast.Inspect(f, func(n ast.Node) bool {
+			sel, ok := n.(*ast.SelectStmt)
+			if !ok {
+				return true
+			}
+			var clauses []*ast.CommClause
+			for _, st := range sel.Body.List {
+				cc := st.(*ast.CommClause)
+				if cc.Comm == nil {
+					return true // has default: never blocks, no random tie-break of interest
+				}
+				switch c := cc.Comm.(type) {
+				case *ast.ExprStmt:
+					if u, ok := c.X.(*ast.UnaryExpr); !ok || u.Op != token.ARROW {
+						return true
+					}
+				case *ast.AssignStmt:
+					if u, ok := c.Rhs[0].(*ast.UnaryExpr); !ok || u.Op != token.ARROW {
+						return true
+					}
+				default:
+					return true // send case: leave alone
+				}
+				clauses = append(clauses, cc)
+			}
+			if len(clauses) < 2 {
+				return true
+			}
+			selPos := fset.Position(sel.Pos())
+			lineStart := selPos.Offset
+			for lineStart > 0 && src[lineStart-1] != '\n' {
+				lineStart--
+			}
+			if strings.TrimSpace(string(src[lineStart:selPos.Offset])) != "" {
+				die("%s: select is not the first token on its line", selPos)
+			}
+			var b strings.Builder
+			for i, cc := range clauses {
+				start := fset.Position(cc.Pos()).Offset
+				var end int
+				if i+1 < len(clauses) {
+					end = fset.Position(clauses[i+1].Pos()).Offset
+				} else {
+					end = fset.Position(sel.Body.Rbrace).Offset
+				}
+				b.WriteString("select {\n")
+				b.Write(src[start:end])
+				b.WriteString("\ndefault:\n")
+			}
+			fmt.Fprintf(&b, "//line %s:%d\n", selPos.Filename, selPos.Line)
+			edits = append(edits, edit{lineStart, lineStart, b.String()})
+			rb := fset.Position(sel.Body.Rbrace).Offset + 1
+			edits = append(edits, edit{rb, rb, strings.Repeat("}", len(clauses))})
+			nSelect++
+			return true
+		})
 		if needVmap {
 			// append the import to the package clause line (no line moves)
 			end := fset.Position(f.Name.End()).Offset
